@@ -1,8 +1,9 @@
 #!/bin/bash
 # unchanged-tree sweep: quick tier over several seeds; any line not starting with OK/KNOWN is an alarm
-cd /verif
+# usage: tools/sweep.sh seed...   (TIER=thorough for the thorough tier; works in a `vp run` snapshot after ./setup.sh)
+cd "$(dirname "$0")/.."
 for seed in "$@"; do
   for p in C01 C02 C03 C04 C05 C06 C07 C08 C09 C10 C11 C12 C13 C14 C15 C16 C17 C18 C19 C20; do
-    VERIF_SEED=$seed ./check $p quick 2>&1 | grep -v "^KNOWN-FINDING" | sed "s/^/seed=$seed /" | cut -c1-200
+    VERIF_SEED=$seed ./check $p ${TIER:-quick} 2>&1 | grep -v "^KNOWN-FINDING" | sed "s/^/seed=$seed /" | cut -c1-200
   done
 done
